@@ -53,7 +53,9 @@ Failed(r) ==
                            \cup (IF strict /\ r.exc = "" /\ exp # <<>> THEN {"d:protocol-iteration-incomplete"} ELSE {})
                            \cup (IF strict /\ r.exc = "" /\ r.iterations # tcfg.iters THEN {"d:protocol-iterations"} ELSE {})
   ELSE {}
-TInit == Init /\ l = 1 /\ bad = {} /\ seen = {} /\ tphase = "configure" /\ sess = {}
+\* (the model variables are not stepped by the judge: one fixed initial state instead of AdaptiveLoop's 9216)
+OneInit == cfg = (CHOOSE c \in Configs : TRUE) /\ phase = "configure" /\ k = 0 /\ have = {} /\ err = "none" /\ obs = <<>> /\ meshobj = 0
+TInit == OneInit /\ l = 1 /\ bad = {} /\ seen = {} /\ tphase = "configure" /\ sess = {}
          /\ strict = FALSE /\ tcfg = [problem |-> "none"] /\ exp = <<>> /\ loops = {}
 TStep ==
   /\ l <= Len(JTrace)
